@@ -9,6 +9,8 @@ LEVEL = 'proof'
 HOME = '/var/tmp/vsb-home'
 
 
+BASE = '/var/tmp/vsb-c20-%d' % os.getpid()     # per process: checks may run concurrently
+
 # documents are trees: objects are lists of [key, value] pairs so that duplicates can be expressed
 def O(*pairs):
     return {'o': [list(p) for p in pairs]}
@@ -47,8 +49,8 @@ def provider(name='dropbox'):
 
 def base_docs():
     d1 = O(('backups', L(
-        O(('name', S('home')), ('path', S('/var/tmp/vsb-c20/storage')),
-          ('backup', O(('items', L(O(('path', S('/var/tmp/vsb-c20/src')), ('filter', S('- *.o\n+ **/keep')), ('before', S('true')), ('after', S('true'))),
+        O(('name', S('home')), ('path', S(BASE + '/storage')),
+          ('backup', O(('items', L(O(('path', S(BASE + '/src')), ('filter', S('- *.o\n+ **/keep')), ('before', S('true')), ('after', S('true'))),
                                    O(('path', S('~/docs'))))),
                        ('max_backup_groups', N(2)), ('max_backups_per_group', N(5)))),
           ('upload', O(('provider', provider()), ('path', S('/Backups/home')), ('max_backup_groups', N(3)),
@@ -56,9 +58,9 @@ def base_docs():
         O(('name', S('other')), ('path', S('~/backups/other')),
           ('upload', O(('provider', provider('yandex-disk')), ('path', S('/B//other/')), ('max_backup_groups', N(1)),
                        ('encryption_passphrase', S('p'))))))),
-        ('prometheus_metrics', S('/var/tmp/vsb-c20/metrics.prom')))
+        ('prometheus_metrics', S(BASE + '/metrics.prom')))
     d2 = O(('backups', L(
-        O(('name', S('only')), ('path', S('/var/tmp/vsb-c20/./st//x/')),
+        O(('name', S('only')), ('path', S(BASE + '/./st//x/')),
           ('backup', O(('items', L(O(('path', S('/etc')), ('filter', S('')))))
                        , ('max_backup_groups', N(1)), ('max_backups_per_group', N(1))))))))
     d3 = O()
@@ -316,24 +318,24 @@ def check(ctx):
     store.ensure_shim()
     rejected = [c for c, i in zip(cases, impl) if isinstance(i, dict) and i.get('result') == 'rejected']
     sample = rejected[::max(1, len(rejected) // (12 if ctx.tier == 'quick' else 80))]
-    os.makedirs('/var/tmp/vsb-c20/storage', exist_ok=True)
-    os.makedirs('/var/tmp/vsb-c20/src', exist_ok=True)
+    os.makedirs(BASE + '/storage', exist_ok=True)
+    os.makedirs(BASE + '/src', exist_ok=True)
     for c in sample:
         cfg = os.path.join(scratch, 'cli.yaml')
         open(cfg, 'w').write(to_yaml(c['doc']))
-        for action in (['backup', 'home'], ['upload'], ['restore', '/var/tmp/vsb-c20/storage/2001.01.01/2001.01.01-00:00:00', os.path.join(scratch, 'restored')]):
+        for action in (['backup', 'home'], ['upload'], ['restore', BASE + '/storage/2001.01.01/2001.01.01-00:00:00', os.path.join(scratch, 'restored')]):
             trace = os.path.join(scratch, 'cli-trace.txt')
             if os.path.exists(trace):
                 os.unlink(trace)
             r = store.run_vsb(ctx, ['-c', cfg] + action, now=1000000000,
-                              shim_env={'TRACE': trace, 'WATCH': '/var/tmp/vsb-c20'}, extra_env={'HOME': HOME, 'VSB_VERIF_URL_MAP': 'https://=http://127.0.0.1:9/'})
+                              shim_env={'TRACE': trace, 'WATCH': BASE}, extra_env={'HOME': HOME, 'VSB_VERIF_URL_MAP': 'https://=http://127.0.0.1:9/'})
             cli_runs += 1
             touched = [ln for ln in open(trace).read().splitlines() if '\tEXIT\t' not in ln] if os.path.exists(trace) else []
             if r.rc == 0 or touched or os.path.exists(os.path.join(scratch, 'restored')):
                 ctx.violation('property', 'cli: rejected configuration (%s) but `vsb %s` exited %d and touched %d storage paths'
                               % (c['label'], action[0], r.rc, len(touched)), {'case': c, 'action': action, 'trace': touched[:5]})
     import shutil
-    shutil.rmtree('/var/tmp/vsb-c20', ignore_errors=True)
+    shutil.rmtree(BASE, ignore_errors=True)
     labels = {}
     for c, i in zip(cases, impl):
         k = c['label'].split(':')[1].split('@')[0] if ':' in c['label'] else 'valid'
